@@ -1,6 +1,8 @@
 package zz_vfc20
 
 import (
+	"math"
+
 	"github.com/paulmach/orb"
 	"github.com/paulmach/orb/clip"
 	"github.com/paulmach/orb/geo"
@@ -226,6 +228,19 @@ func vfC20Agree(c int) {
 			vfAssert("collection-area-zero", planar.Area(col) == 0)
 		}
 		vfAssert("collection-length-sum", planar.Length(col) == length)
+	}
+
+	// orb.Round: every coordinate of every kind (collection members included) is rounded to the factor
+	{
+		rg := mk(&vfGen{mode: 4})
+		want := vfCoords(rg)
+		got := vfCoords(orb.Round(orb.Clone(rg), 100))
+		vfAssert("round-ncoords", len(got) == len(want))
+		for i := range want {
+			if i < len(got) {
+				vfAssert("round-every-coordinate", got[i] == math.Round(want[i]*100)/100)
+			}
+		}
 	}
 
 	// planar / geo length and planar area of every kind against the kind's own definition
